@@ -1,0 +1,94 @@
+//go:build verif
+
+package gorums
+
+import (
+	"sync/atomic"
+
+	"google.golang.org/protobuf/reflect/protoreflect"
+)
+
+// Verification hooks (build tag "verif"): observation points for the
+// model-based conformance checks. Nothing in this file, and none of the
+// vEmit/vGate call sites, changes the behaviour of the library unless a
+// hook function has been installed with VerifSetHook.
+//
+// vEmit is called at a linearisation point (inside the critical section that
+// protects the state the event describes); the installed function must not
+// block. vGate is called before a blocking operation or a lock acquisition,
+// never inside a critical section; the installed function may hold the
+// calling goroutine there (scheduler gate / delay point).
+
+// VerifHookFunc receives one event: gate reports whether the call site is a
+// gate, ev names the spec action, node and msg are the projection keys (0 if
+// not applicable), kv are alternating key, value pairs of cheap scalars.
+type VerifHookFunc func(gate bool, ev string, node uint32, msg uint64, kv []interface{})
+
+type verifHookBox struct{ f VerifHookFunc }
+
+var verifHook atomic.Value // of verifHookBox
+
+// VerifSetHook installs (or with nil removes) the hook function.
+func VerifSetHook(f VerifHookFunc) { verifHook.Store(verifHookBox{f}) }
+
+func vEmit(ev string, node uint32, msg uint64, kv ...interface{}) {
+	if b, ok := verifHook.Load().(verifHookBox); ok && b.f != nil {
+		b.f(false, ev, node, msg, kv)
+	}
+}
+
+func vGate(ev string, node uint32, msg uint64, kv ...interface{}) {
+	if b, ok := verifHook.Load().(verifHookBox); ok && b.f != nil {
+		b.f(true, ev, node, msg, kv)
+	}
+}
+
+// VerifRouterCount returns the number of response routers currently
+// registered on the node's channel (-1 if the node has no channel).
+func VerifRouterCount(n *RawNode) int {
+	if n == nil || n.channel == nil {
+		return -1
+	}
+	n.channel.responseMut.Lock()
+	defer n.channel.responseMut.Unlock()
+	return len(n.channel.responseRouters)
+}
+
+// VerifSendQLen returns the number of requests buffered in the node's send queue.
+func VerifSendQLen(n *RawNode) int {
+	if n == nil || n.channel == nil {
+		return -1
+	}
+	return len(n.channel.sendQ)
+}
+
+// VerifNewMessage returns an empty Message for unmarshaling a request
+// (response = false) or a response (response = true), as the server and the
+// client receive loops create them.
+func VerifNewMessage(response bool) *Message {
+	if response {
+		return newMessage(responseType)
+	}
+	return newMessage(requestType)
+}
+
+// VerifSetLastErr records err as the node's last error, as a failed send or
+// receive would (the node must have a channel).
+func VerifSetLastErr(n *RawNode, err error) { n.channel.setLastErr(err) }
+
+// VerifAttachChannel gives a node created without a connection (WithNoConnect)
+// a channel object, without starting any goroutine, so that LastErr and the
+// LastNodeError sorter can be exercised offline.
+func VerifAttachChannel(n *RawNode) {
+	if n.channel == nil {
+		n.channel = &channel{node: n, responseRouters: make(map[uint64]responseRouter)}
+	}
+}
+
+// VerifMessageOf returns the payload of m (nil-safe).
+func VerifMessageOf(m *Message) protoreflect.ProtoMessage {
+	if m == nil {
+		return nil
+	}
+	return m.Message
+}
